@@ -208,6 +208,12 @@ let parse_edit (toks : string list) : z edit option = match toks with
   | ["BTRUNC"; p; n] -> Some (EBranchTrunc (nat_of_int (ios p), nat_of_int (ios n)))
   | ["BCPOP"; p] -> Some (EBranchPopChild (nat_of_int (ios p)))
   | ["BPUSH"; p; z; id] -> Some (EBranchPush (nat_of_int (ios p), key_of (ios z) (ios id)))
+  | ["BPUSHL"; p; n; z0; id0; v0] ->
+      let n = ios n and z0 = ios z0 and id0 = ios id0 and v0 = ios v0 in
+      let rec mk i = if i >= n then [] else i :: mk (i + 1) in
+      Some (EBranchPushLeaf (nat_of_int (ios p),
+                             List.map (fun i -> key_of (z0 + i) (id0 + i)) (mk 0),
+                             List.map (fun i -> z_of_int (v0 + i)) (mk 0)))
   | ["BCDUP"; p] -> Some (EBranchDupChild (nat_of_int (ios p)))
   | ["BREF"; p; i; id] -> Some (EBranchRef (nat_of_int (ios p), nat_of_int (ios i), n_of_int (ios id)))
   | ["ROOT"; k; id] -> Some (ERoot ((k = "L"), n_of_int (ios id)))
